@@ -142,7 +142,14 @@ def rval(rng, tp, depth, with_ids):
     if tp is T.bu16:
         return T.bu16(rng.choice([0, 1, 255, 256, 65535, rng.randrange(65536)]))
     if tp is str:
-        return "".join(rng.choice("abcXYZ09 -é€") for _ in range(rng.choice([1, 3, 40, 255, 256])))
+        base = "".join(rng.choice("abcXYZ09 -é€") for _ in range(rng.choice([1, 3, 40, 255, 256])))
+        r = rng.random()
+        if r < 0.3:
+            # what a decoder might be tempted to tidy up: terminators, padding, line ends, a BOM - at either end or inside
+            edge = rng.choice(["\x00", "\x00\x00\x00", " ", "  ", "\n", "\r\n", "\t", "\ufeff", "\x7f", "\u00a0"])
+            pos = rng.choice(["end", "end", "start", "mid", "only"])
+            base = {"end": base + edge, "start": edge + base, "mid": base[:len(base) // 2] + edge + base[len(base) // 2:], "only": edge}[pos]
+        return base
     if tp is bytes:
         return rbytes(rng)
     if isinstance(tp, type) and issubclass(tp, enum.IntEnum):
